@@ -121,7 +121,7 @@ PROPS["C05"] = {
 }
 
 PROPS["C06"] = {
-    "legs": [rapid("pos", "pheap", "TestC06Pos", 4, 5000, 16, 300000)],
+    "legs": [rapid("pos", "pheap", "TestC06Pos", 4, 5000, 16, 120000)],
     "rule": "histories as C05 (mode G) with an update callback installed that records the last reported position per "
             "element id; extra ops: removeElem (Remove at the recorded position of a chosen tracked element must return "
             "exactly that element), Update(nil)/re-install phases (after removal of the callback no call may arrive; "
